@@ -1,5 +1,5 @@
 """C08 literal values reach the database unchanged and cannot alter the statement."""
-import itertools, json, math, sqlite3, struct, time
+import itertools, json, math, re, sqlite3, struct, time
 from collections import Counter
 import vlib
 from vlib import vh_batch, drv_batch, enc, dec
@@ -17,7 +17,9 @@ MANIFEST = dict(
          "prql_decimal_value, radix_value, with counterexamples for integers beyond i64); f-strings denote the concatenation of their parts "
          "(fstring_concat, fstring_fragment_roundtrip); relation literals evaluate to their rows (relation_literal). Tied to the code by: "
          "lexer value vs model for every quote style / escape form / raw string / f-string fragment of every string of length <= 3 over 13 "
-         "significant characters and random Unicode strings; emitted SQL text vs the model; ORACLE: the value SQLite returns for the emitted "
+         "significant characters and random Unicode strings; source-first grid of written forms (prefix x quote kind x 1-8 quotes x contents over "
+         "quote / other quote / backslash / letter / braces / newline, runs of quotes shorter and longer than the delimiter) read by an independent "
+         "reference reader of the documented syntax, by Model.Lex and through SQLite; emitted SQL text vs the model; ORACLE: the value SQLite returns for the emitted "
          "statement (one statement, one row, one column) must equal the denoted value byte for byte; per dialect (all 12) the emitted SQL is "
          "tokenised by sqlparser's tokenizer for that dialect and the literal must be exactly one string token with that value.",
     note="floats are compared through SQLite as f64 bit patterns (no IEEE model in Lean: floats are outside the theorems); dates and times "
@@ -662,6 +664,304 @@ def random_values(rng, n):
     return list(dict.fromkeys(out))
 
 
+# ---------------------------------------------------------------------------------------------------------------
+# source-first grid: every way of WRITING a string / f-string / s-string / r-string, read by a reference reader
+# ---------------------------------------------------------------------------------------------------------------
+# The suites above start from a VALUE and spell it (esc_multi escapes every quote that touches another quote, so a run of raw quotes
+# inside a 3/5-quote string is never written).  This suite starts from the SOURCE: (prefix, quote kind, delimiter length, content over a
+# small alphabet) and computes what the text denotes by the language reference (reference/syntax/strings.md, r-strings.md, f-strings.md,
+# s-strings.md) with a reader that shares nothing with Model.Lex: regular expressions over the source text.
+
+GRID_SETUP = ["CREATE TABLE g (n TEXT)", "INSERT INTO g VALUES ('<N>')"]
+GRID_ENV = {"n": "<N>"}
+DOC_ESCAPES = {"\\": "\\", "'": "'", '"': '"', "/": "/", "b": "\b", "f": "\f", "n": "\n", "r": "\r", "t": "\t"}
+_ESC = re.compile(r"\\(u\{[0-9a-fA-F]{1,6}\}|x[0-9a-fA-F]{2}|[\s\S])")
+_ITEMS = re.compile(r"\{\{|\}\}|\{[^{}]*\}|[^{}]+")
+
+
+def ref_unescape(body):
+    """documented escapes of strings.md (JSON's plus \\' \\xhh \\u{h..}); None = the body uses an escape the reference does not define"""
+    bad = []
+
+    def one(m):
+        e = m.group(1)
+        if e[0] == "u" and len(e) > 1:
+            cp = int(e[2:-1], 16)
+            if cp >= 0x110000 or 0xD800 <= cp <= 0xDFFF:
+                bad.append(e)
+                return ""
+            return chr(cp)
+        if e[0] == "x" and len(e) == 3:
+            return chr(int(e[1:], 16))
+        if e in DOC_ESCAPES:
+            return DOC_ESCAPES[e]
+        bad.append(e)
+        return ""
+    out = _ESC.sub(one, body)
+    return None if bad else out
+
+
+def ref_read(src):
+    """the documented reading of a whole source text `[f|s|r]` + quotes + ... :
+       ("lit", token class, value)   exactly one literal with that value
+       ("notone", why)               not exactly one literal (unterminated, or text is left over after the closing delimiter)
+       ("undefined", why)            the reference is silent (even delimiter > 2, escape outside the table, r-string closed by the other quote)"""
+    prefix = src[0] if src[:1] in ("f", "s", "r") else ""
+    cls = {"": "String", "f": "F", "s": "S", "r": "RawString"}[prefix]
+    t = src[len(prefix):]
+    if t[:1] not in ("'", '"'):
+        return ("notone", "no opening quote")
+    q = t[0]
+    if prefix == "r":
+        m = re.match(r"[^'\"\n\r]*", t[1:])
+        end = 1 + m.end()
+        if end >= len(t) or t[end] in "\n\r":
+            return ("notone", "unterminated")
+        if t[end] != q:
+            return ("undefined", "r-string closed by the other kind of quote")
+        return ("lit", cls, m.group(0)) if end + 1 == len(t) else ("notone", "text after the literal")
+    n = len(t) - len(t.lstrip(q))
+    if n % 2 == 0:
+        if n > 2:
+            return ("undefined", "even number of quotes > 2") if n == len(t) else ("notone", "text after an even run of quotes")
+        return ("lit", cls, "") if len(t) == 2 else ("notone", "text after the empty string")
+    delim = q * n
+    m = re.compile(r"(?:\\[\s\S]|(?!%s)[^\\])*" % re.escape(delim)).match(t, n)
+    if not t.startswith(delim, m.end()):
+        return ("notone", "unterminated")
+    if m.end() + n != len(t):
+        return ("notone", "text after the literal")
+    v = ref_unescape(t[n:m.end()])
+    return ("undefined", "escape outside the documented table") if v is None else ("lit", cls, v)
+
+
+def ref_interp(v):
+    """f-/s-string content -> [("S", text) | ("E", name)]; None where the reference is silent (lone brace, anything but a plain name in braces)"""
+    items, pos = [], 0
+    for m in _ITEMS.finditer(v):
+        if m.start() != pos:
+            return None
+        pos = m.end()
+        x = m.group(0)
+        if x in ("{{", "}}"):
+            x = x[0]
+        elif x[0] == "{":
+            if not re.fullmatch(r"[a-z_][a-z0-9_]*", x[1:-1]):
+                return None
+            items.append(("E", x[1:-1])); continue
+        if items and items[-1][0] == "S":
+            items[-1] = ("S", items[-1][1] + x)
+        else:
+            items.append(("S", x))
+    return items if pos == len(v) else None
+
+
+def grid_contents(alpha, maxlen):
+    return ["".join(p) for k in range(maxlen + 1) for p in itertools.product(alpha, repeat=k)]
+
+
+def grid_sources(thorough):
+    """seed-independent: [(family, prefix, q, n, content)]"""
+    out = []
+    for q in ("'", '"'):
+        o = '"' if q == "'" else "'"
+        full = [q, o, "\\", "n", "{", "}", "\n"]
+        core = [q, o, "\\", "n", "{"]
+        small = [q, "\\", "n"]
+        for prefix in ("", "f", "s"):
+            for n in (1, 3, 5, 7):
+                L = {1: 4, 3: 4, 5: 4 if prefix == "" else 3, 7: 3}[n] + (1 if thorough and n < 7 else 0)
+                cs = grid_contents(full, L)
+                if n in (3, 5):
+                    # deeper over fewer characters: the delimiter's quote next to itself, to a backslash, to a letter
+                    extra = grid_contents(core if (n == 3 and (prefix == "" or thorough)) else small, L + 1) + grid_contents(small, L + (3 if n == 3 else 2))
+                    if thorough and n == 3:
+                        extra += grid_contents(core, L + 2)
+                    cs = list(dict.fromkeys(cs + extra))
+                out += [("grid", prefix, q, n, c) for c in cs]
+            for n in (2, 4, 6, 8):
+                out += [("even", prefix, q, n, c) for c in grid_contents(full, 2)]
+            # runs of the delimiter's quote of every length 1 .. n+2 at the start / in the middle / at the end, next to each kind of neighbour
+            nb = ["", "n", "\\", o, "{{", "\n", "\\\\", "\\" + q]
+            for n in (3, 5, 7):
+                for k in range(1, n + 3):
+                    for pre in nb:
+                        for post in nb:
+                            out.append(("run", prefix, q, n, pre + q * k + post))
+                for k in range(1, n):
+                    for j in range(1, n):
+                        for mid in ("n", o, "\\n", "{n}"):
+                            for pre in ("", "n"):
+                                for post in ("", "n"):
+                                    out.append(("run2", prefix, q, n, pre + q * k + mid + q * j + post))
+        for n in (1, 2, 3):
+            out += [("raw", "r", q, n, c) for c in grid_contents([q, o, "\\", "n", "{", "\n"], 5 if thorough else 4)]
+    seen, uniq = set(), []
+    for x in out:
+        k = x[1:]
+        if k not in seen:
+            seen.add(k); uniq.append(x)
+    return uniq
+
+
+def random_sources(rng, count):
+    out = []
+    for _ in range(count):
+        q = rng.choice("'\"")
+        o = '"' if q == "'" else "'"
+        prefix = rng.choice(["", "", "f", "s", "r"])
+        n = 1 if prefix == "r" and rng.random() < 0.8 else rng.choice([1, 1, 2, 3, 3, 3, 4, 5, 5, 6, 7, 9])
+        pool = [q] * 6 + [o] * 2 + ["\\"] * 3 + list("nnxu{}{}0a4fé \n\r\t-;") + ["\\" + q, q * 2, q * (n - 1), "\\x41", "\\u{e9}", "\\u{1F422}", "{n}", "{{", "}}"]
+        c = "".join(rng.choice(pool) for _ in range(rng.randrange(0, 9)))
+        out.append(("random", prefix, q, n, c))
+    return out
+
+
+def suite_source_grid(ctx, items, label, stats):
+    t0 = time.time()
+    srcs = [prefix + q * n + c + q * n for (_, prefix, q, n, c) in items]
+    order = list(dict.fromkeys(srcs))
+    fam = {}
+    for it, s in zip(items, srcs):
+        fam.setdefault(s, it)
+    srcs = order
+    impl = []
+    B = 2000
+    for a in vh_batch([{"op": "lexc", "srcs": srcs[i:i + B]} for i in range(0, len(srcs), B)]):
+        impl += a.get("r", [])
+    model = drv_batch([f"lex\t{enc(s)}" for s in srcs])
+    nbad = 0
+    todo = {"": [], "r": [], "f": [], "s": []}      # prefix -> [(src, lexed value, reference reading)]
+    for s, i, m in zip(srcs, impl, model):
+        family, prefix, q, n, c = fam[s]
+        ctx.case(("grid-lex", s))
+        ref = ref_read(s)
+        stats["styles"][f"{family}:{prefix or 'plain'}:{'sq' if q == chr(39) else 'dq'}{n}"] += 1
+        stats["grid_ref"][(prefix or "plain") + ":" + ref[0]] += 1
+        rep = {"src": s, "prql": f"from g | select {{v = {s}}}", "setup": GRID_SETUP, "lexed": i, "documented": list(ref)}
+        if not lex_same(i, m):
+            nbad += 1
+            ctx.disagreement("lexer value (source grid)", f"lex_source and Model.Lex.lex differ on {s!r}", dict(rep, model=m))
+        st = single_token(i)
+        if st is not None and st[0] not in ("String", "RawString", "F", "S"):
+            st = None
+        if ref[0] == "lit" and (st is None or st[0] != ref[1] or cps_dec(st[1]) != ref[2]):
+            ctx.oracle_failure("string-spelling-misread", f"{s!r} denotes the {ref[1]} {ref[2]!r} by the language reference, the lexer reads {i}", rep)
+            if st is None or st[0] != ref[1]:
+                continue            # (a misread VALUE still goes on to the database: the SQLite oracle below judges it against the documented value)
+        if ref[0] == "notone" and st is not None:
+            ctx.oracle_failure("string-spelling-misread", f"{s!r} is not one literal by the language reference ({ref[1]}), the lexer reads one: {i}", rep)
+            continue
+        if st is not None:
+            todo[prefix].append((s, cps_dec(st[1]), ref))
+    ctx.obligation(f"correspondence[{label}]: lexer reading of every written form (prefix x quote kind x 1-9 quotes x content) = Model.Lex",
+                   nbad == 0, f"{len(srcs)} sources, {nbad} disagreements")
+
+    con = sqlite3.connect(":memory:")
+    for x in GRID_SETUP:
+        con.execute(x)
+    con.execute("PRAGMA query_only = ON")
+
+    def run_sql(sql):
+        try:
+            cur = con.execute(sql)
+            names = [d[0] for d in cur.description] if cur.description else []
+            return names, [list(r) for r in cur.fetchall()]
+        except Exception as e:
+            return "error", f"{type(e).__name__}: {e}"
+
+    # plain and raw strings: SQL text vs Model.Lit.sqlQuote of the value; the value back from SQLite
+    plain = todo[""] + todo["r"]
+    comp = vh_batch([compile_req(f"from g | select {{v = {s}}}") for (s, _, _) in plain])
+    uvals = list(dict.fromkeys(v for (_, v, _) in plain))
+    mq = dict(zip(uvals, drv_batch([f"sql_quote\t{enc(v)}" for v in uvals])))
+    nbad_sql, ran = 0, {}
+    for (s, v, ref), a in zip(plain, comp):
+        ctx.case(("grid-sql", s), nontrivial="sql" in a)
+        prql = f"from g | select {{v = {s}}}"
+        if "sql" not in a:
+            ctx.oracle_failure("string-literal-rejected", f"the lexer reads {s!r} as one literal but the program does not compile", {"prql": prql, "setup": GRID_SETUP, "answer": a})
+            continue
+        expect = "SELECT " + dec(mq[v]) + " AS v FROM g"
+        if a["sql"] != expect:
+            nbad_sql += 1
+            ctx.disagreement("sql text (source grid)", f"emitted SQL differs from Model.Lit.sqlQuote for {s!r}", {"src": s, "prql": prql, "sql": a["sql"], "model": expect})
+        if a["sql"] not in ran:
+            ran[a["sql"]] = run_sql(a["sql"])
+            stats["sqlite_exec"] += 1
+        res = ran[a["sql"]]
+        want = ref[2] if ref[0] == "lit" else v
+        if not (res[0] == ["v"] and res[1] == [[want]]):
+            fid = classify_string("sqlite", want)
+            stats["fail"][("sqlite-grid", fid)] += 1
+            ctx.oracle_failure(fid, f"{s!r} denotes {want!r}; SQLite returns {str(res)[:200]}",
+                               {"prql": prql, "setup": GRID_SETUP, "dialect": "sqlite", "value": want, "sql": a["sql"], "observed": res})
+
+    # f-strings: items vs Model.Lit.fstrItems; the concatenation back from SQLite
+    fs = todo["f"]
+    pl = vh_batch([{"op": "pl", "prql": f"from g | select {{v = {s}}}"} for (s, _, _) in fs])
+    comp = vh_batch([compile_req(f"from g | select {{v = {s}}}") for (s, _, _) in fs])
+    fvals = list(dict.fromkeys(v for (_, v, _) in fs + todo["s"]))
+    fm = dict(zip(fvals, drv_batch([f"fstr\t{enc(v)}" for v in fvals])))
+    nbad_f = 0
+    for (s, v, ref), p, a in zip(fs, pl, comp):
+        ctx.case(("grid-f", s), nontrivial="sql" in a)
+        prql = f"from g | select {{v = {s}}}"
+        items = find_key(p.get("pl"), "FString") if "pl" in p else None
+        got_impl = "none"
+        if items is not None:
+            got_impl = "ok " + ";".join(("S" + ",".join(str(ord(ch)) for ch in it["String"])) if "String" in it else
+                                        ("E" + "/".join(",".join(str(ord(ch)) for ch in part) for part in it["Expr"]["expr"]["Ident"])
+                                         + (":F" + ",".join(str(ord(ch)) for ch in it["Expr"]["format"]) if it["Expr"].get("format") is not None else ""))
+                                        if isinstance(it.get("Expr", {}).get("expr", {}).get("Ident"), list) else "?" for it in items)
+        if got_impl != fm[v] and "?" not in got_impl:
+            nbad_f += 1
+            ctx.disagreement("f-string items (source grid)", f"interpolation parser and Model.Lit.fstrItems differ on {s!r}", {"src": s, "prql": prql, "impl": got_impl, "model": fm[v]})
+        doc = ref_interp(ref[2]) if ref[0] == "lit" else None
+        if doc is None or any(k == "E" and x not in GRID_ENV for k, x in doc):
+            stats["grid_ref"]["f:items-undefined"] += 1
+            continue
+        want_items = "ok " + ";".join(("S" if k == "S" else "E") + ",".join(str(ord(ch)) for ch in x) for k, x in doc)
+        if got_impl != want_items:
+            ctx.oracle_failure("fstring-items-misread", f"{s!r} is not read as its documented parts {doc!r}: {got_impl}", {"prql": prql, "setup": GRID_SETUP, "items": got_impl, "expected": want_items})
+            continue
+        want = "".join(x if k == "S" else GRID_ENV[x] for k, x in doc)
+        if "sql" not in a:
+            ctx.oracle_failure("fstring-rejected", f"{s!r} does not compile", {"prql": prql, "setup": GRID_SETUP, "answer": a})
+            continue
+        if a["sql"] not in ran:
+            ran[a["sql"]] = run_sql(a["sql"])
+            stats["sqlite_exec"] += 1
+        res = ran[a["sql"]]
+        if not (res[0] == ["v"] and res[1] == [[want]]):
+            fid = classify_strings("sqlite", [x for k, x in doc if k == "S"])
+            stats["fail"][("sqlite-grid-fstring", fid)] += 1
+            ctx.oracle_failure(fid, f"f-string {s!r} denotes {want!r}; SQLite returns {str(res)[:160]}",
+                               {"prql": prql, "setup": GRID_SETUP, "dialect": "sqlite", "sql": a["sql"], "expected": want, "observed": str(res)})
+    ctx.obligation(f"correspondence[{label}]: emitted literal text = Model.Lit.sqlQuote; f-string items = Model.Lit.fstrItems", nbad_sql == 0 and nbad_f == 0,
+                   f"{len(plain)} string programs, {len(fs)} f-string programs, {nbad_sql}+{nbad_f} disagreements")
+
+    # s-strings: the documented text must be the SQL expression, verbatim
+    ss = todo["s"]
+    comp = vh_batch([compile_req(f"from g | select {{v = {s}}}") for (s, _, _) in ss])
+    for (s, v, ref), a in zip(ss, comp):
+        ctx.case(("grid-s", s), nontrivial="sql" in a)
+        doc = ref_interp(ref[2]) if ref[0] == "lit" else None
+        if doc is None or any(k == "E" and x not in GRID_ENV for k, x in doc):
+            stats["grid_ref"]["s:items-undefined"] += 1
+            continue
+        prql = f"from g | select {{v = {s}}}"
+        text = "".join(x for k, x in doc)
+        if "sql" not in a:
+            ctx.oracle_failure("sstring-rejected", f"{s!r} does not compile", {"prql": prql, "setup": GRID_SETUP, "answer": a})
+            continue
+        if a["sql"] != "SELECT " + text + " AS v FROM g":
+            ctx.oracle_failure("sstring-text-altered", f"s-string {s!r} denotes the SQL text {text!r}; emitted: {a['sql']!r}",
+                               {"prql": prql, "setup": GRID_SETUP, "dialect": "sqlite", "sql": a["sql"], "expected": "SELECT " + text + " AS v FROM g"})
+    con.close()
+    stats["t_" + label] = round(time.time() - t0, 1)
+
+
 def run(ctx):
     br = vlib.standard_proof_obligations(ctx, ["PrqlModel.Props.C08"], ["Lex", "Dialects"],
         required_theorems=["prql_string_value", "prql_quote_roundtrip", "sql_quote_roundtrip", "sql_quote_eq_doubling", "sql_quote_std_roundtrip",
@@ -674,7 +974,11 @@ def run(ctx):
                 "characters; each value is written in up to 13 spellings (1/3/5 quotes of either kind, escaped and bare, raw strings, \\u{} and \\x "
                 "escapes, single-fragment f-strings); a case is one (spelling), one (spelling -> SQL -> SQLite value) or one (value, dialect) "
                 "tokenisation. Numbers: a fixed list of boundary spellings (i64 limits, digit limits of each radix, underscores, exponent forms, "
-                "f64 extremes) plus random ones. f-strings: fragments x shapes x all dialects. Relation literals: random rows. "
+                "f64 extremes) plus random ones. Written forms (source-first, seed-independent): prefix (none, f, s, r) x quote kind x delimiter of 1-8 quotes "
+                "x every content of length <= 4 over {the delimiter's quote, the other quote, backslash, n, {, }, LF} (deeper over fewer characters for 3 and 5 "
+                "quotes), runs of 1..n+2 delimiter quotes at the start / middle / end next to each kind of neighbour, pairs of runs; each source is read by a "
+                "reference reader (regular expressions written from the language reference) and by Model.Lex, and where it is one literal its value is "
+                "compared with what SQLite returns (s-strings: with the emitted SQL text); plus seeded random written forms. f-strings: fragments x shapes x all dialects. Relation literals: random rows. "
                 "non-trivial = the compiler produced SQL that was executed or tokenised")
     ctx.assumptions += ["string values are compared byte-exactly through SQLite (python sqlite3); the other 11 dialects are judged by sqlparser's tokenizer "
                         "for that dialect (the reader prqlc itself trusts), not by a live database",
@@ -684,7 +988,7 @@ def run(ctx):
     if not (br.cargo_ok and br.drv_ok):
         return
     dialects = br.gen["Dialects"]["summary"]["variants"] if "Dialects" in br.gen else ALL_DIALECTS
-    stats = dict(styles=Counter(), fail=Counter(), numbers=Counter(), other=Counter(), fstr_shapes=Counter(), rel_rows=Counter(), sqlite_exec=0, dialect_tok=0, bs_mode={})
+    stats = dict(styles=Counter(), fail=Counter(), numbers=Counter(), other=Counter(), fstr_shapes=Counter(), rel_rows=Counter(), grid_ref=Counter(), sqlite_exec=0, dialect_tok=0, bs_mode={})
 
     # which dialect tokenizers treat backslash as an escape (and which keep \% \_): probed, must equal the recorded set
     probe = vh_batch([{"op": "sqlparse", "dialect": d, "sql": "SELECT 'a\\\\b', '\\%'", "tokens": True} for d in dialects])
@@ -707,6 +1011,9 @@ def run(ctx):
     # 2. random Unicode
     rv = random_values(ctx.rng, 12000 if thorough else 1200)
     suite_strings(ctx, rv, dialects, "random", True, stats)
+    # 2b. source-first: every written form of a string / f-string / s-string / r-string, read by the reference reader
+    suite_source_grid(ctx, grid_sources(thorough), "written forms", stats)
+    suite_source_grid(ctx, random_sources(ctx.rng, 100000 if thorough else 15000), "written forms, random", stats)
     # 3. numbers
     suite_numbers(ctx, number_spellings(ctx.rng, 20000 if thorough else 2500), stats)
     # 4. booleans, null, dates
@@ -723,6 +1030,7 @@ def run(ctx):
     ctx.coverage_extra["distribution"] = {
         "spelling_styles": dict(stats["styles"]), "numbers_by_token_class": dict(stats["numbers"]), "other_literals": dict(stats["other"]),
         "fstring_shapes": dict(stats["fstr_shapes"]), "relation_literal_rows": {str(k): v for k, v in stats["rel_rows"].items()},
+        "written_forms_by_documented_reading": dict(stats["grid_ref"]),
         "sqlite_statements_executed": stats["sqlite_exec"], "dialect_tokenisations": stats["dialect_tok"],
         "property_failures_by_site_and_class": {f"{k[0]}:{k[1]}": n for k, n in sorted(stats["fail"].items(), key=str)},
     }
@@ -739,7 +1047,7 @@ def replay(obj):
             a = vh_batch([compile_req(r["prql"], r.get("dialect", "sqlite"))])[0]
             print("compile:", a)
             if "sql" in a and r.get("dialect", "sqlite") == "sqlite":
-                print("sqlite :", sqlite_one(a["sql"], SETUP))
+                print("sqlite :", sqlite_one(a["sql"], r.get("setup", SETUP)))
             elif "sql" in a:
                 t = vh_batch([{"op": "sqlparse", "dialect": r["dialect"], "sql": a["sql"], "tokens": True}])[0]
                 print("tokens :", string_tokens(sig_tokens(t)), t.get("tokenize_error"), t.get("parse_error"))
